@@ -25,12 +25,12 @@ mod verif_kani {
         kani::cover!(gt.wtime <= 100 && gt.winc > 0 && s > 0);
         kani::cover!(gt.wtime <= 100 && gt.winc <= 0 && s == 0);
     }
-    // BOUNDED, quick tier (mover clock 101..=355 ms, movestogo absent or 1..=3, everything else arbitrary): the plan is within one
+    // BOUNDED, quick tier (mover clock 101..=355 ms, movestogo absent or 1..=3 or 31..=33, everything else arbitrary): the plan is within one
     // millisecond of 0.8 * (clock - 100) / mtg -- the small-clock band where a floor or a wrong divisor shows first
     #[kani::proof]
     fn c09_bounded_small_clock() {
         let d: u8 = kani::any(); let m: u8 = kani::any();
-        kani::assume(m >= 1 && m <= 3);
+        kani::assume((m >= 1 && m <= 3) || (m >= 31 && m <= 33));
         let has: bool = kani::any(); let white: bool = kani::any();
         let w: i128 = 101 + d as i128;
         let other: i128 = kani::any(); let oinc: i128 = kani::any(); let inc: i128 = kani::any();
